@@ -463,7 +463,7 @@ Inductive case :=
           (xs obs : list (list float))
 (* history on an array message: the queries (parameters, natural parameters, mean, variance) observed
    on the initial message and after every in-place `m[i] = value` *)
-| CHist (f : family) (elems0 : list (list float)) (steps : list (nat * list float))
+| CHist (f : family) (elems0 : list (list float)) (steps : list (list nat * list float))
         (obs : list (list (list float) * list (list float) * list (float * float)))
 (* m._transform_det(x) = (y, logd) and m.factor(x), given base_message.logpdf(y) as an oracle value *)
 | CDet (tb : tabs) (stack : list (transform float)) (x : float) (base_lp : float)
@@ -486,7 +486,11 @@ Definition hist_query_ok (O : ops float) (m : msg (T := float))
        (map2 (fun p ob => match q_moments O (fam m) p with Some mv => fpair_eqb mv ob | None => true end) (elems m) om)
   && Nat.eqb (length om) (length (elems m)).
 
-Fixpoint hist_ok (O : ops float) (m : msg (T := float)) (steps : list (nat * list float))
+(* an int index, a slice or an index array: the same scalar value is written to every selected entry *)
+Definition setitem_many {T} (m : msg (T := T)) (idx : list nat) (p : list T) : msg :=
+  fold_left (fun a i => setitem a i p) idx m.
+
+Fixpoint hist_ok (O : ops float) (m : msg (T := float)) (steps : list (list nat * list float))
          (obs : list (list (list float) * list (list float) * list (float * float))) : bool :=
   match obs with
   | [] => match steps with [] => true | _ => false end
@@ -494,7 +498,7 @@ Fixpoint hist_ok (O : ops float) (m : msg (T := float)) (steps : list (nat * lis
       hist_query_ok O m o &&
       match steps with
       | [] => match obs' with [] => true | _ => false end
-      | (i, p) :: steps' => hist_ok O (setitem m i p) steps' obs'
+      | (i, p) :: steps' => hist_ok O (setitem_many m i p) steps' obs'
       end
   end.
 
